@@ -3,6 +3,7 @@ package main
 // Round-6 rules: the small helpers, constructors and geometry functions the larger rules take for granted.
 
 import (
+	"os"
 	"fmt"
 	"go/types"
 	"strings"
@@ -36,6 +37,10 @@ func ruleC16Geometry(cx *Ctx) {
 	const rule = "C16.geometry"
 	cx.R.Rule(rule, 6, "the chunk geometry of the queue is self-consistent: a chunk of length n carries mask (n-2)<<1 wherever a mask is stored with a chunk (constructor, resize, consumer switch); an element's slot is (index & mask) >> 1 and the link slot (mask+2) >> 1 = n-1, outside the element slots; the next chunk has 2*(n-1)+1 slots; Size is (producer - consumer) >> 1")
 	p0, p1 := tVar("param0"), tVar("param1")
+	dataField := "field:data"
+	if df := cx.P.Field(queuePkg, "buffer", "data"); df != nil {
+		dataField = "field:" + df.Name() // the slots of a chunk, whatever the field is called today
+	}
 	off := cx.need(rule, queuePkg, "", "modifiedCalcElementOffset")
 	if off != nil {
 		got := retTerm(off)
@@ -47,12 +52,12 @@ func ruleC16Geometry(cx *Ctx) {
 	}
 	if g := cx.need(rule, queuePkg, "MPSC", "getNextBufferSize"); g != nil {
 		// 2*(len-1)+1 on the returning path
-		l := mk("builtin:len", mk("field:data", mk("load", p1)))
+		l := mk("builtin:len", mk(dataField, mk("load", p1)))
 		want := mk("+", mk("*", tConst(2), mk("-", l, tConst(1))), tConst(1)).String()
 		got := retTerm(g)
 		if got != want {
 			// the slice may render without the explicit load
-			l2 := mk("builtin:len", mk("field:data", p1))
+			l2 := mk("builtin:len", mk(dataField, p1))
 			want = mk("+", mk("*", tConst(2), mk("-", l2, tConst(1))), tConst(1)).String()
 		}
 		cx.R.Check(got == want, rule, "queue.(*MPSC).getNextBufferSize", "next chunk has 2*(len-1)+1 slots", cx.P.Pos(g.Pos()), "found "+trunc(got, 100))
@@ -104,17 +109,38 @@ func ruleC16Geometry(cx *Ctx) {
 				detail = "mask " + trunc(mt, 60) + " chunk length " + trunc(lt.String(), 60)
 			} else {
 				// consumer switch: the chunk is a parameter, its length is len(b.data)
+				lenForm := func(mt *Term) bool {
+					ms := mt.String()
+					return strings.Contains(ms, "builtin:len("+dataField+"(") && mt.Op == "*" && strings.Contains(ms, ",2)") && func() bool {
+						// (len - 2) * 2
+						for _, a := range mt.Args {
+							if a.Op == "-" && len(a.Args) == 2 && a.Args[1].isConst() && a.Args[1].C == 2 && strings.HasPrefix(a.Args[0].Op, "builtin:len") {
+								return true
+							}
+						}
+						return false
+					}()
+				}
 				mt := tb.of(arg)
 				ms := mt.String()
-				okM = strings.Contains(ms, "builtin:len(field:data(") && mt.Op == "*" && strings.Contains(ms, ",2)") && func() bool {
-					// (len - 2) * 2
-					for _, a := range mt.Args {
-						if a.Op == "-" && len(a.Args) == 2 && a.Args[1].isConst() && a.Args[1].C == 2 && strings.HasPrefix(a.Args[0].Op, "builtin:len") {
-							return true
-						}
+				okM = lenForm(mt)
+				if pi := paramIndexOf(arg); !okM && pi >= 0 {
+					// the mask is computed by the callers: (len(chunk)-2)<<1 at every call site
+					sites := 0
+					okM = true
+					for _, g := range cx.P.FuncsOfPkg(queuePkg) {
+						allInstrs(g, func(x ssa.Instruction) {
+							if c := calleeOf(x); c != nil && origin(c) == origin(fn) {
+								sites++
+								as := callCommon(x).Args
+								if pi >= len(as) || !lenForm(newInliningTermBuilder().of(as[pi])) {
+									okM = false
+								}
+							}
+						})
 					}
-					return false
-				}()
+					okM = okM && sites > 0
+				}
 				detail = "mask " + trunc(ms, 80)
 			}
 			cx.R.Check(okM, rule, funcName(fn), key, cx.P.where(in), "a chunk of length n is used with mask (n-2)<<1 ("+detail+")")
@@ -1066,12 +1092,27 @@ func ruleC17Delivered(cx *Ctx) {
 			return false
 		}
 		a := callArgs(in)
+		emptyFn := func(f *ssa.Function) bool {
+			// a consumer that does nothing: a literal, or a named (possibly generic) function with an empty body
+			f = origin(f)
+			if f == nil || len(f.Blocks) != 1 {
+				return false
+			}
+			for _, x := range f.Blocks[0].Instrs {
+				switch x.(type) {
+				case *ssa.Return, *ssa.DebugRef:
+				default:
+					return false
+				}
+			}
+			return true
+		}
 		if mc, ok := a[len(a)-1].(*ssa.MakeClosure); ok && boundMethod(mc) == nil {
-			if cl, _ := mc.Fn.(*ssa.Function); cl != nil && len(cl.Blocks) == 1 && len(cl.Blocks[0].Instrs) <= 1 {
+			if cl, _ := mc.Fn.(*ssa.Function); cl != nil && emptyFn(cl) {
 				return false
 			}
 		}
-		if cl, ok := a[len(a)-1].(*ssa.Function); ok && len(cl.Blocks) == 1 && len(cl.Blocks[0].Instrs) <= 1 {
+		if cl, ok := a[len(a)-1].(*ssa.Function); ok && emptyFn(cl) {
 			return false
 		}
 		return true
@@ -1535,6 +1576,30 @@ func ruleC13FindBucket(cx *Ctx) {
 					if l.Op == "-" && len(l.Args) == 2 && l.Args[1].String() == "field:time(param0)" {
 						okDur = true
 					}
+					// ... the wheel time may be handed in by the callers: then every call site passes v.time
+					if l.Op == "-" && len(l.Args) == 2 && l.Args[1].Op == "v" && strings.HasPrefix(l.Args[1].Name, "param") {
+						pi := -1
+						for i := range fn.Params {
+							if l.Args[1].Name == fmt.Sprintf("param%d", i) {
+								pi = i
+							}
+						}
+						sites, all := 0, true
+						for _, g := range cx.P.FuncsOfPkg(expPkg) {
+							allInstrs(g, func(x ssa.Instruction) {
+								if c := calleeOf(x); c != nil && origin(c) == origin(fn) {
+									sites++
+									as := callCommon(x).Args
+									if pi < 0 || pi >= len(as) || !strings.HasPrefix(newTermBuilder().of(as[pi]).String(), "field:time(") {
+										all = false
+									}
+								}
+							})
+						}
+						if sites > 0 && all {
+							okDur = true
+						}
+					}
 				}
 			}
 			cx.R.Check(okGuard && okDur, rule, funcName(fn), "level chosen iff duration < spans[level+1]", cx.P.where(ri.r), "a level's slot is returned exactly under the test deadline - wheelTime < spans[level+1] for that level")
@@ -1556,10 +1621,26 @@ func ruleC13FindBucket(cx *Ctx) {
 			// the slot
 			sl := ri.slot
 			okSlot := false
+			tickOK := func(sh *Term) bool {
+				// the deadline's tick of this level: deadline >> shift[level], or deadline / spans[level] (C13.tables proves
+				// spans[k] = 1 << shift[k])
+				if len(sh.Args) != 2 {
+					return false
+				}
+				return (sh.Op == ">>" && sh.Args[1].String() == mk("index", tVar("global:shift"), ri.lvl).String()) ||
+					(sh.Op == "/" && sh.Args[1].String() == mk("index", tVar("global:spans"), ri.lvl).String())
+			}
+			if sl.Op == "%" && len(sl.Args) == 2 && tickOK(sl.Args[0]) {
+				// modulo the slot count itself (a power of two by C13.tables)
+				m := sl.Args[1].String()
+				if m == mk("index", tVar("global:buckets"), ri.lvl).String() || m == mk("builtin:len", mk("index", tVar("field:wheel(param0)"), ri.lvl)).String() {
+					okSlot = true
+				}
+			}
 			if sl.Op == "&" && len(sl.Args) == 2 {
 				for k := 0; k < 2; k++ {
 					sh, ms := sl.Args[k], sl.Args[1-k]
-					shOK := sh.Op == ">>" && len(sh.Args) == 2 && sh.Args[1].String() == mk("index", tVar("global:shift"), ri.lvl).String()
+					shOK := tickOK(sh)
 					msOK := ms.String() == mk("-", mk("index", tVar("global:buckets"), ri.lvl), tConst(1)).String() ||
 						ms.String() == mk("-", mk("builtin:len", mk("index", tVar("field:wheel(param0)"), ri.lvl)), tConst(1)).String()
 					if shOK && msOK {
@@ -1602,6 +1683,16 @@ func ruleC17DrainAll(cx *Ctx) {
 	isTable := func(v ssa.Value) bool {
 		c, ok := stripConv(v).(*ssa.Call)
 		return ok && isStdMethod(c, "sync/atomic", "Pointer", "Load") && sameField(recvField(c), stripedF)
+	}
+	isTableLen := func(v ssa.Value) bool {
+		if v == nil {
+			return false
+		}
+		if sameField(fieldOf(v), lenF) {
+			return true
+		}
+		c, isC := v.(*ssa.Call)
+		return isC && isBuiltinCall(c, "len") && sameField(fieldOf(c.Call.Args[0]), bufF)
 	}
 	n := 0
 	allInstrs(fn, func(in ssa.Instruction) {
@@ -1646,10 +1737,103 @@ func ruleC17DrainAll(cx *Ctx) {
 			if b, isB := g.Cond.(*ssa.BinOp); isB && (b.X == idx || b.Y == idx) {
 				continue
 			}
+			if b, isB := g.Cond.(*ssa.BinOp); isB && (isTableLen(b.X) || isTableLen(b.Y)) {
+				continue // the loop's pre-test on the table's length (an empty table has nothing to drain)
+			}
 			bad = newTermBuilder().of(g.Cond).String() + " at " + cx.P.where(g.If)
 		}
 		cx.R.Check(bad == "", rule, funcName(fn), fmt.Sprintf("drain #%d unconditional", n), cx.P.where(in), "a ring's drain is skipped only when the ring is nil "+bad)
 	})
+	if n == 0 {
+		// the walk over the rings lives in a helper that is handed the draining closure (each(func(r) { r.drainTo(consumer) })):
+		// the closure drains the ring it is given into DrainTo's consumer, and the helper calls it for buffers[i] of its
+		// table, i from 0 to len, skipping only nil rings (the walk itself is also decided by C17.walk)
+		withClosures(fn, func(cl *ssa.Function) {
+			if cl == fn {
+				return
+			}
+			allInstrs(cl, func(in ssa.Instruction) {
+				if !isCallTo(in, rd) {
+					return
+				}
+				_, ringIsParam := recvValue(in).(*ssa.Parameter)
+				a := callArgs(in)
+				consOK := false
+				if len(a) == 1 {
+					if fv, isFV := stripLoad(a[0]).(*ssa.FreeVar); isFV {
+						// bound to DrainTo's consumer
+						allInstrs(fn, func(x ssa.Instruction) {
+							if mc, isMC := x.(*ssa.MakeClosure); isMC && mc.Fn == ssa.Value(cl) {
+								for i, b := range mc.Bindings {
+									if i < len(cl.FreeVars) && cl.FreeVars[i] == fv && stripLoad(b) == ssa.Value(bparam(fn, 1)) || (i < len(cl.FreeVars) && cl.FreeVars[i] == fv && b == ssa.Value(bparam(fn, 1))) {
+										consOK = true
+									}
+									if al, isAl := b.(*ssa.Alloc); isAl && i < len(cl.FreeVars) && cl.FreeVars[i] == fv && wholeStore(al) == ssa.Value(bparam(fn, 1)) {
+										consOK = true
+									}
+								}
+							}
+						})
+					}
+				}
+				// the helper that receives the closure
+				walkOK := false
+				allInstrs(fn, func(x ssa.Instruction) {
+					h := calleeOf(x)
+					if h == nil || h.Pkg == nil || !strings.HasSuffix(h.Pkg.Pkg.Path(), lossyPkg) {
+						return
+					}
+					passes := false
+					for _, arg := range callCommon(x).Args {
+						if mc, isMC := arg.(*ssa.MakeClosure); isMC && mc.Fn == ssa.Value(cl) {
+							passes = true
+						}
+					}
+					if !passes {
+						return
+					}
+					oh := origin(h)
+					allInstrs(oh, func(y ssa.Instruction) {
+						cc := callCommon(y)
+						if cc == nil || cc.IsInvoke() || cc.StaticCallee() != nil || len(cc.Args) != 1 {
+							return
+						}
+						if _, isP := cc.Value.(*ssa.Parameter); !isP {
+							return
+						}
+						ld, isC := cc.Args[0].(*ssa.Call)
+						if !isC || !isStdMethod(ld, "sync/atomic", "Pointer", "Load") {
+							return
+						}
+						ia, isIA := recvValue(ld).(*ssa.IndexAddr)
+						if !isIA || !sameField(fieldOf(ia.X), bufF) {
+							return
+						}
+						if _, first, bound, okI := indexInduction(ia.Index); okI && first == 0 && bound != nil && (sameField(fieldOf(bound), lenF) || isTableLen(bound)) {
+							okG := true
+							for _, g := range guardsAt(y.Block()) {
+								if xv, _, isNil := nilCmp(g.Cond); isNil && (xv == ssa.Value(ld) || paramIndexOf(xv) == 0) {
+									continue
+								}
+								if b, isB := g.Cond.(*ssa.BinOp); isB && (b.X == ia.Index || b.Y == ia.Index || isTableLen(b.X) || isTableLen(b.Y)) {
+									continue
+								}
+								okG = false
+							}
+							walkOK = okG
+						}
+					})
+				})
+				if os.Getenv("OTTERLINT_DEBUG") != "" {
+					fmt.Fprintln(os.Stderr, "drainall tier2:", ringIsParam, consOK, walkOK)
+				}
+				if ringIsParam && consOK && walkOK {
+					n++
+					cx.R.OK(rule, funcName(fn), "drain through a walking helper", cx.P.where(in), "the closure drains the ring it is handed into DrainTo's consumer; the helper calls it for every non-nil ring 0..len-1")
+				}
+			})
+		})
+	}
 	cx.R.Check(n >= 1, rule, funcName(fn), "rings are drained", cx.P.Pos(fn.Pos()), fmt.Sprintf("%d drain call(s)", n))
 	// returns: before the loop only when there is no table
 	allInstrs(fn, func(in ssa.Instruction) {
@@ -1668,6 +1852,9 @@ func ruleC17DrainAll(cx *Ctx) {
 					continue // the loop ran to its end
 				}
 				if _, _, _, okI := indexInduction(b.Y); okI {
+					continue
+				}
+				if isTableLen(b.X) || isTableLen(b.Y) {
 					continue
 				}
 			}
@@ -1699,6 +1886,11 @@ func queueOfPath(o *psOutcome, n string) string {
 				return p.q
 			}
 		}
+	}
+	if len(falses) == 3 {
+		// none of the three tags (a node that was never linked; infeasible for a linked one): the policy's selection
+		// "neither window nor probation" names the protected queue
+		return "protected"
 	}
 	return ""
 }
@@ -1734,7 +1926,12 @@ func ruleC05PolUnlink(cx *Ctx) {
 		a.flush()
 		cx.R.Check(n >= 3, rule, funcName(r.fn), "one path per queue", cx.P.Pos(r.fn.Pos()), fmt.Sprintf("%d returning path(s)", n))
 	}
-	if r := cx.runOp(rule, polSpec("updateNode", "updateNode")); r != nil {
+	unSpec := polSpec("updateNode", "updateNode")
+	if cx.P.Func("", "policy", "updateNode") == nil && cx.P.Func("", "policy", "update") != nil {
+		// the replacement step was inlined into its only caller: decided on the summaries of policy.update
+		unSpec = polSpec("update", "update")
+	}
+	if r := cx.runOp(rule, unSpec); r != nil {
 		a := newAgg(cx, rule, funcName(r.fn), cx.P.Pos(r.fn.Pos()))
 		n := 0
 		for _, o := range r.outs {
@@ -1757,6 +1954,10 @@ func ruleC05PolUnlink(cx *Ctx) {
 					firstQueueOp = i
 				}
 				if q, nd, ok := dequeCall(e, "Contains"); ok && nd == "param:old" {
+					contains++
+					containsQ = q
+				}
+				if q, nd, ok := dequeCall(e, "NotContains"); ok && nd == "param:old" {
 					contains++
 					containsQ = q
 				}
